@@ -686,6 +686,12 @@ func (zp *ZoneParser) Next() (RR, bool) {
 				return zp.setParseError(err.err, err.lex)
 			}
 
+			// Some RDATA parsers skip over tokens without looking at their
+			// error flag; a lexer error inside the RDATA must not be lost.
+			if zp.c.l.err {
+				return zp.setParseError(zp.c.l.token, zp.c.l)
+			}
+
 			if parseAsRFC3597 {
 				err := parseAsRR.(*RFC3597).fromRFC3597(rr)
 				if err != nil {
